@@ -60,6 +60,10 @@ def rand_config(rng, lossless=None, profile=None, small=True, vary_metadata=Fals
     depth_ho = rng.choice([0, 0, 0, 1, 2])
     wi = WaveletFilters(rng.randrange(7))
     wiho = WaveletFilters(rng.randrange(7)) if rng.random() < 0.4 else wi
+    if rng.random() < 0.12:
+        # the one ASYMMETRIC wavelet pair that has default quantisation matrices (Annex D): horizontal LeGall, vertical Haar
+        wi, wiho = WaveletFilters(3), WaveletFilters(1)
+        depth, depth_ho = rng.choice([(1, 0), (2, 0), (1, 1), (2, 1), (0, 1), (1, 2)])
     sx, sy = rng.randrange(1, 5), rng.randrange(1, 4)
     qm = None
     if (wi, wiho, depth, depth_ho) not in QUANTISATION_MATRICES or rng.random() < 0.25:
@@ -97,12 +101,18 @@ def rand_pictures(rng, cf, n=None):
         n = rng.choice([1, 2, 3])
     if cf["picture_coding_mode"] == 1:
         n = 2 * ((n + 1) // 2)
-    style = rng.choice(["noise", "max", "min", "const", "checker", "ramp"])
+    style0 = rng.choice(["noise", "max", "min", "const", "checker", "ramp"])
+    # a third of the time the components differ (e.g. flat luma, all the detail in ONE colour-difference component)
+    per_comp = None
+    if rng.random() < 0.33:
+        busy = rng.choice(["Y", "C1", "C2"])
+        per_comp = dict((c, "noise" if c == busy else rng.choice(["const", "min", "max"])) for c in ("Y", "C1", "C2"))
     first = rng.choice([None, None, 0, 4, 2 ** 32 - 2])
     pics = []
     for i in range(n):
         p = {}
         for c, (w, h, depth, _) in d.items():
+            style = per_comp[c] if per_comp else style0
             top = (1 << depth) - 1
             if style == "noise":
                 p[c] = [[rng.randrange(0, top + 1) for _ in range(w)] for _ in range(h)]
